@@ -98,6 +98,16 @@ def r1(rr, repo):
     # duplicate ids raise before ids are used for wiring
     dup = [n for n in walk_scope(pf) if isinstance(n, ast.Raise) and 'duplicate id' in U(n)]
     rr.ob('duplicate filter ids raise', bool(dup) and (not steps or dup[0].lineno < steps[0][0].lineno), cmod, dup[0] if dup else pf, key='dup-id')
+    if dup:
+        loops = [a for a in ancestors(dup[0]) if isinstance(a, ast.For)]
+        over_all = bool(loops) and U(loops[-1].iter) == 'filters' and parent(loops[-1]) is pf
+        gen = [n for n in walk_scope(pf) if isinstance(n, ast.Assign) and any(isinstance(t, ast.Attribute) and t.attr == 'id' for t in n.targets)]
+        after_gen = bool(gen) and bool(loops) and all(g.lineno < loops[-1].lineno for g in gen)
+        rr.ob('the duplicate-id test runs over ALL filters, after the generated ids (Name, Name1, Name2, ...) were assigned - a generated id can collide with a user-given one', over_all and after_gen, cmod, dup[0],
+              witness=f'loop over {U(loops[-1].iter) if loops else None}; id assignments at lines {[g.lineno for g in gen]}', key='dup-id-covers-all')
+        regs = [n for n in walk_scope(pf) if (isinstance(n, ast.Assign) and any(isinstance(t, ast.Subscript) and U(t.value) == 'config_by_id' for t in n.targets))
+                or (isinstance(n, ast.Expr) and isinstance(n.value, ast.Call) and U(n.value.func) in ('config_by_id.update', 'config_by_id.setdefault'))]
+        rr.ob('ids are registered only inside the loop that tests for duplicates', bool(regs) and all(loops and q.inside(r, loops[-1]) for r in regs), cmod, regs[0] if regs else pf, key='dup-id-single-registration')
 
 
 def _stmt_list(st):
